@@ -319,8 +319,9 @@ def run(ctx):
     jobs = []
     alph = {}
     for name in R.CLASS_NAMES:
-        for did in ('r0', 'c0'):
-            A = R.alphabet(name, did)
+        for did in ('r0', 'c0', 'r1', 'c1'):
+            # r0/c0: 20 samples (even default grid), the full alphabet; r1/c1: 23 samples (ODD default grid), the core alphabet
+            A = R.alphabet(name, did) if did in ('r0', 'c0') else R.core_alphabet(name, did)
             alph[(name, did)] = A
             jobs.append((name, did, A, [], 0))
             for a in A:
